@@ -31,10 +31,15 @@ struct FrequentFamily {
   static const char* name() { static std::string n = std::string("frequent<") + Kit::name() + ">"; return n.c_str(); }
   static Obj* make(Env& e, uint64_t v, int reg) {
     uint8_t lg_max = static_cast<uint8_t>(3 + (v & 3)), lg_start = static_cast<uint8_t>((v & 4) ? lg_max : 3);
+    if ((v >> 3) % 8 == 7) lg_max = 11;   // maps larger than the purge sample (1024 values): another branch of the purge bookkeeping
     return construct<Obj>([&](void* m) { return new (m) Obj(lg_max, lg_start, typename Kit::Equal(), e.alloc<T>(reg)); });
   }
   static void update(Env&, Obj& sk, uint64_t seed, unsigned n) {
     vf::Rng r(seed);
+    if (sk.get_epsilon() < 3.5 / 1500) {  // lg_max_map_size >= 11: enough distinct items for a purge with more than 1024 active counters
+      const unsigned m = 1600 + static_cast<unsigned>(seed % 500);
+      for (unsigned i = 0; i < m; ++i) { T item = Kit::make(1000000 + (seed % 7) * 3000 + i); LibScope ls; sk.update(std::move(item), 1); }
+    }
     for (unsigned i = 0; i < n; ++i) {
       uint64_t v = (seed % 3) * 20 + r.below(6 + (seed % 4) * 25);   // skewed: small windows give heavy hitters
       uint64_t w = 1 + r.below(4);
